@@ -183,7 +183,8 @@ def k2_signal_discipline(core, rep, lines_have_try=None):
                 rep.ob('K2', key + '/unrelated', True)
                 continue
             if fn is s.attempt.node and rel == s.rel and '<all>' not in catches:
-                rep.ob('K2', key + '/is-the-recording-handler', True)
+                rep.ob('K2', key + '/is-the-recording-handler', len(types) == 1,
+                       f'the recording handler `except {"|".join(types)}` of {fn.name}() also catches {[t for t in types if t not in SIGNALS]}: an invalid (but supplied) input, for instance, would be treated as a missing one and asked again', f'{rel}:{h.lineno}')
                 continue
             if _is_reraise(h):
                 rep.ob('K2', key + '/re-raises', True)
@@ -194,6 +195,12 @@ def k2_signal_discipline(core, rep, lines_have_try=None):
                 continue
             rep.ob('K2', key + '/swallows-signal', False,
                    f'handler `except {"|".join(types)}` in {fn.name if fn else rel} can swallow the solver signals {catches} (on the solve call path: {on_path})', f'{rel}:{h.lineno}')
+    for rel, t in core.all_nodes(ast.Try):
+        for h in t.handlers:
+            if 'InvalidInput' in _handler_types(h) and not _is_reraise(h):
+                fn = enclosing_function(t)
+                rep.ob('K2', f'{rel}:{fn.name if fn else "<module>"}/catches-InvalidInput', False,
+                       f'{fn.name if fn else rel}() catches InvalidInput: text the validator rejects must abort the solve, not be handled as something else', f'{rel}:{h.lineno}')
     if n_handlers < 5:
         raise AnalysisError(f'only {n_handlers} exception handlers found in the core (extractor lost sites)')
     # the four recording handlers record on all their paths
@@ -896,8 +903,20 @@ def k18_cli_store_identity(core, rep):
     reass = [n for n in ast.walk(f.node) if isinstance(n, ast.Assign) and any(isinstance(t, ast.Name) and t.id == store for t in n.targets)]
     rep.ob('K18', 'store-not-rebound', len(reass) == 1, f'the variable {store} is rebound', _w(f))
     w = core.method('InputStore', 'write')
-    ok = any(call_name(c) == 'write' and attr_text(c.func.value) == 'self.config' for c in calls_in(w.node))
-    rep.ob('K18', 'write-serialises-the-live-config', ok, 'InputStore.write() does not serialise self.config (the object __setitem__ updates)', _w(w))
+    g = w.cfg
+    wr = [n for n in g.nodes if n.kind == 'stmt' and n.ast is not None and any(call_name(c) == 'write' and attr_text(c.func.value) == 'self.config' for c in calls_in(n.ast))]
+    ok = bool(wr) and not g.paths_avoiding(g.entry, g.exit, {n.id for n in wr})
+    rep.ob('K18', 'write-serialises-the-live-config', ok, 'InputStore.write() has a path that does not serialise self.config (the object __setitem__ updates): answers would be used for the run but never reach the file', _w(w))
+    ci = core.classes.classes['InputStore']
+    for c in calls_in(ci.node):
+        bad = [k.arg for k in c.keywords if k.arg in ('fallback', 'vars')]
+        if bad:
+            rep.ob('K18', f'InputStore/no-fallback@{unparse(c, 50)}', False, f'InputStore uses a defaulting configuration read `{unparse(c)}`: "absent" and "blank" become indistinguishable', f'{ci.rel}:{c.lineno}')
+    si = core.method('InputStore', '__setitem__')
+    g2 = si.cfg
+    sets = [n for n in g2.nodes if n.kind == 'stmt' and n.ast is not None and any(call_name(c) == 'set' and attr_text(c.func.value) == 'self.config' for c in calls_in(n.ast))]
+    ok = bool(sets) and not g2.paths_avoiding(g2.entry, g2.exit, {n.id for n in sets})
+    rep.ob('K18', 'setitem-always-stores', ok, 'InputStore.__setitem__ has a path on which the value is not stored in the configuration', _w(si))
     # prompt wiring: the prompt function is the module's prompt_input only with --prompt-missing
     pf = [n for n in ast.walk(f.node) if isinstance(n, ast.Assign) and isinstance(n.value, ast.IfExp) and unparse(n.value.test) == 'args.prompt_missing']
     ok = len(pf) == 1 and unparse(pf[0].value.body) == 'prompt_input' and _const(pf[0].value.orelse, None)
